@@ -131,14 +131,14 @@ PROPS = {
                   ("SH", 6, has("decision_nnf::")), ("RN", 5, has("RN4")),
                   ("WP", 4, has("update_hash_and_sat_set")), ("PR", 1, has("SATSolver")),
                   ("TD", 4, None), ("VO", 1, vo_sel("decision_nnf", only_label_order=True)),
-                  ("EC", 4, None), ("LP", 6, None), ("MK", 0, None), ("VO", 4, has("level-arg")), ("UG", 1, None)],
+                  ("EC", 4, None), ("LP", 6, None), ("MK", 0, None), ("VO", 4, has("level-arg")), ("UG", 1, None), ("EM", 2, has("unit_prop"))],
         "explanation": "Conditioning of a possibly complemented d-DNNF pointer is sign-coherent (CP on cond_helper: return "
                        "contract, node-constructor parity, comparison parity); decide/pop balance on every path of topdown_h "
                        "(TS-BAL: one pop after SAT/Unknown, none after UNSAT, none before the first decide); UNSAT and an "
                        "initially unsatisfiable CNF map to the false constant (DP); one residual-hash key for cache lookup and "
                        "insert, taken before the level's decisions (GL4); no public function leaves scratch set (SP1). Not "
                        "decided: soundness of component caching by residual hash, that models are exactly the CNF's, "
-                       "path-wise decomposability. Added: each branch conjoins all of difference_iter except the decided variable (TD); the solver constructor treats an empty clause as a conflict, a unit clause as one queued literal and a longer clause as two watches (EC); no label-order comparison in the top-down builder (VO label-order). Added: LP — the bit-field packing of Literal (known-bits/provenance analysis of the generated accessors): the label and polarity fields do not overlap, each setter writes exactly what its getter reads, label(new(l,p)) = l and polarity(new(l,p)) = p, and negated/implies_true/implies_false equal their definitions by truth table. Added: MK — any memo over signed pointers (a composite key with a pointer component included) applies the sign symmetrically on lookup and insert; VO level-arg — every `level` argument of the top-down recursion is a level of the variable order (a constant start, level + 1), never an index found in label space. Added: UG — an assignment made during unit propagation is made to an unassigned variable: every PartialModel::set(label(l), _) is dominated by get(label(l)) == None for the same literal, or l is a parameter and every call site passes a literal guarded that way or drawn from the clause's unassigned literals.",
+                       "path-wise decomposability. Added: each branch conjoins all of difference_iter except the decided variable (TD); the solver constructor treats an empty clause as a conflict, a unit clause as one queued literal and a longer clause as two watches (EC); no label-order comparison in the top-down builder (VO label-order). Added: LP — the bit-field packing of Literal (known-bits/provenance analysis of the generated accessors): the label and polarity fields do not overlap, each setter writes exactly what its getter reads, label(new(l,p)) = l and polarity(new(l,p)) = p, and negated/implies_true/implies_false equal their definitions by truth table. Added: MK — any memo over signed pointers (a composite key with a pointer component included) applies the sign symmetrically on lookup and insert; VO level-arg — every `level` argument of the top-down recursion is a level of the variable order (a constant start, level + 1), never an index found in label space. Added: UG — an assignment made during unit propagation is made to an unassigned variable: every PartialModel::set(label(l), _) is dominated by get(label(l)) == None for the same literal, or l is a parameter and every call site passes a literal guarded that way or drawn from the clause's unassigned literals. Added: EM — the solver the top-down compiler starts from copes with an empty clause and with the empty formula.",
     },
     "C07": {
         "level": "other",
@@ -228,13 +228,13 @@ PROPS = {
         "level": "other",
         "rules": [("WP", 14, has("unit_prop")), ("TS", 5, has("TS-STK")), ("WI", 1, None), ("PR", 1, has("SATSolver")),
                   ("LT", 2, has("UnitPropagate")), ("PM", 5, has("::get:", "::unset:", "::is_set:", "::lit_implied:", "::lit_neg_implied:")),
-                  ("WS", 24, None), ("TF", 1, None), ("EC", 4, None), ("LC", 1, has("UnitPropagate::decide")), ("LP", 6, None), ("UG", 1, None)],
+                  ("WS", 24, None), ("TF", 1, None), ("EC", 4, None), ("LC", 1, has("UnitPropagate::decide")), ("LP", 6, None), ("UG", 1, None), ("EM", 2, has("unit_prop"))],
         "explanation": "Every pos/neg watch-list / occurrence-table access in unit_prop.rs is selected by the polarity of "
                        "the same literal that indexes it, insertions go to the literal's own table, reads keyed by one "
                        "literal use one side (WP); SATSolver::decide pushes exactly one state on non-UNSAT paths and none on "
                        "UNSAT, pop pops one, new leaves two (TS-STK) — the structural half of 'pop restores the previous "
                        "state'. Not decided: soundness and fixpoint of propagation in general, the satisfied flag, hash "
-                       "injectivity. Added: index spaces of the watch scheme - label / clause index / position in a watch list - are respected at all 32 uses (WS); the tautology filter ranges over all pairs because Literal's packed order is polarity-major (TF); clause-length cases of the constructor (EC); the PartialModel queries agree with the two-set definition (PM); watch tables keep their label indexing (LT). Added: the satisfied-clause scan of decide depends on the literal's status only (LC); the residual-hash update refers to one base state throughout (WP3). Added: LP — the bit-field packing of Literal (known-bits/provenance analysis of the generated accessors): the label and polarity fields do not overlap, each setter writes exactly what its getter reads, label(new(l,p)) = l and polarity(new(l,p)) = p, and negated/implies_true/implies_false equal their definitions by truth table. Added: UG — an assignment made during unit propagation is made to an unassigned variable: every PartialModel::set(label(l), _) is dominated by get(label(l)) == None for the same literal, or l is a parameter and every call site passes a literal guarded that way or drawn from the clause's unassigned literals.",
+                       "injectivity. Added: index spaces of the watch scheme - label / clause index / position in a watch list - are respected at all 32 uses (WS); the tautology filter ranges over all pairs because Literal's packed order is polarity-major (TF); clause-length cases of the constructor (EC); the PartialModel queries agree with the two-set definition (PM); watch tables keep their label indexing (LT). Added: the satisfied-clause scan of decide depends on the literal's status only (LC); the residual-hash update refers to one base state throughout (WP3). Added: LP — the bit-field packing of Literal (known-bits/provenance analysis of the generated accessors): the label and polarity fields do not overlap, each setter writes exactly what its getter reads, label(new(l,p)) = l and polarity(new(l,p)) = p, and negated/implies_true/implies_false equal their definitions by truth table. Added: UG — an assignment made during unit propagation is made to an unassigned variable: every PartialModel::set(label(l), _) is dominated by get(label(l)) == None for the same literal, or l is a parameter and every call site passes a literal guarded that way or drawn from the clause's unassigned literals. Added: EM — UnitPropagate::new on a CNF with an empty clause and SATSolver::new on the empty formula reach no panic, underflow or 0-divisor (abstract evaluation under the emptiness assumption).",
     },
     "C12": {
         "level": "other",
@@ -279,7 +279,7 @@ PROPS = {
         "rules": [("EE", 3, None), ("IC", 5, has("repr::cnf::")), ("WP", 2, has("repr::cnf::")),
                   ("FS", 3, has("repr::cnf::", "assignment_weight")), ("CN", 2, None),
                   ("PR", 1, has("CnfHasher")), ("LT", 2, has("CnfHasher")),
-                  ("PM", 9, None), ("HS", 5, None), ("LC", 2, has("is_sat_partial", "Cnf::eval", "Cnf::condition")), ("LP", 6, None), ("WT", 1, has("from_litvec")), ("DP", 1, has("from_string:sign")), ("EM", 5, has("repr::cnf::Cnf::"))],
+                  ("PM", 9, None), ("HS", 5, None), ("LC", 2, has("is_sat_partial", "Cnf::eval", "Cnf::condition")), ("LP", 6, None), ("WT", 1, has("from_litvec")), ("DP", 1, has("from_string:sign")), ("EM", 6, has("repr::cnf::"))],
         "explanation": "Brute-force counting leaves its enumeration loop only when the assignment iterator is exhausted (EE); "
                        "Cnf's variable count is max label + 1 (IC); the residual hasher's pos/neg tables are selected and "
                        "indexed by the same literal (WP); counting accumulators are seeded with zero/one (FS). Not decided: "
